@@ -339,6 +339,23 @@ def search(ctx):
         if why:
             found.append({"clause": "equivalent spellings of a server address give the same placement: " + why,
                           "input": {"a": repr(a), "b": repr(b)}, "observed": repr((na, nb)), "expected": "equal node names and placement", "size": 0})
+    # 3a. through HashClient too, placement is a function of the key and the servers IN ROTATION: a server that was removed gets
+    # nothing, also when it was the only one (nobody is in rotation then: no client at all)
+    for servers in ([("h", 1)], [("h", 1), ("g", 2)], ["/tmp/only.sock"]):
+        for k in ("key1", b"key2", ("sk", "inner")):
+            hc1 = HashClient(list(servers), ignore_exc=True, dead_timeout=3600, retry_attempts=0)
+            gone = servers[0]
+            hc1._mark_failed_server(gone)        # what a failed call does: with retry_attempts=0 the server leaves the rotation at once
+            try:
+                cl1 = hc1._get_client(k)[0]
+                got = None if cl1 is None else cl1.server
+            except Exception as e:  # noqa
+                got = "%s: %s" % (type(e).__name__, e)
+            left = [x for x in servers[1:]]
+            if (not left and got is not None) or (left and got != left[0]):
+                found.append({"clause": "placement depends only on the key and the servers in rotation: after %r failed and left the rotation the key %r is routed to %r "
+                                        "(in rotation: %r)" % (gone, k, got, left),
+                              "input": {"servers": repr(servers), "removed": repr(gone), "key": repr(k)}, "observed": repr(got), "expected": repr(left[0] if left else None), "size": 0})
     # 3b. 'unix:<path>' names the socket <path>, whatever <path> starts with (paths beginning with a letter of "unix:" included)
     for path in ("/tmp/x.sock", "nodes/mc.sock", "u", "xinu:/a", "i/n/u/x.sock", "unix:/y", ":", "/unix:z"):
         try:
